@@ -38,7 +38,7 @@ from harness import wrapsym  # noqa: E402
 from lib import checklib  # noqa: E402
 
 PID = "C01"
-BUILDS = [("strs.yaml", "strs.hpp"), ("cstrs.yaml", "cstrs.h"), ("flib.yaml", "flib.hpp"), ("own.yaml", "own.hpp")]
+BUILDS = [("strs.yaml", "strs.hpp"), ("cstrs.yaml", "cstrs.h"), ("flib.yaml", "flib.hpp"), ("own.yaml", "own.hpp"), ("flibc.yaml", "flibc.h")]
 _FB = {}
 
 
@@ -124,6 +124,7 @@ class FortranHarness(object):
 
     def run(self, e):
         self.prepare()
+        self.finished = False
         gx = GExec(e, self.fb.functions, self.fb.layouts, cap=self.cap)
         self.gx = gx
         self.calls = []
@@ -318,7 +319,7 @@ class FortranHarness(object):
         if len(args) != len(roles):
             self.expect_fail("%s is called with %d arguments, the C function has %d parameters" % (cname, len(args), len(roles)), True)
             return None, None
-        rec = {"name": cname, "info": info, "args": args, "havoc": {}}
+        rec = {"name": cname, "info": info, "args": args, "havoc": {}, "argobs": [None] * len(args)}
         N = self.cap
         byname = {k.lower(): v for k, v in self.act.items()}
         sib = {}
@@ -329,6 +330,24 @@ class FortranHarness(object):
             key = p.name.lower() if p is not None else None
             a = byname.get(key) if key else None
             what = "%s argument %d (%s)" % (cname, k + 1, cn)
+            # what a native stand-in would print for this argument (for the replay comparison)
+            if isinstance(v, Ptr):
+                if v.obj is not None and v.obj.live and a is not None and a.kind == "char" and v.obj is a.obj:
+                    gx.m.flush(a.obj)
+                    rec["argobs"][k] = ("buf", key, a.obj.arr, a.n, p.intent if p is not None else "out")
+                elif v.obj is not None and v.obj.live and role == "arg" and p is not None and p.kind() in ("charp", "string"):
+                    gx.m.flush(v.obj)
+                    rec["argobs"][k] = ("cstr", v.obj.arr, bv(v.off), bv(v.obj.size))
+                elif v.obj is not None and v.obj.live and role == "arg" and p is not None and p.kind() == "nativep" and \
+                        conc(v.obj.size) in (1, 2, 4, 8) and conc(v.off) == 0:
+                    bits_ = conc(v.obj.size) * 8
+                    rec["argobs"][k] = ("ref", gx.m.load_int(v, bits_), bits_, p.intent)
+                elif role in ("res_buf",) :
+                    rec["argobs"][k] = ("buf", "@result", None, None, "out")
+            elif not isinstance(v, (tuple,)) and v is not None:
+                vv = v if not isinstance(v, int) else z3.BitVecVal(v, 64)
+                if z3.is_bv(vv):
+                    rec["argobs"][k] = ("val", vv, vv.size())
             if role == "arg":
                 kind = p.kind()
                 implied = p.attrs.get("implied")
@@ -726,7 +745,7 @@ class FortranHarness(object):
     # ------------------------------------------------------------------ judge
     def witness(self, m, what):
         w = {"kernel": "fortran", "function": self.fname, "build": list(self.build_key), "cap": self.cap, "what": what, "inputs": {}}
-        for k, a in self.act.items():
+        for k, a in getattr(self, "act", {}).items():
             if a.kind == "char":
                 n = lc.mval(m, a.n)
                 w["inputs"][k] = {"len": n, "text": lc.bytes_of(m, a.arr0, min(n, self.cap + 1))}
@@ -736,8 +755,88 @@ class FortranHarness(object):
                 w["inputs"][k] = a.kind
             else:
                 w["inputs"][k] = lc.mval(m, a.v0, a.v0.size())
-        w["callee"] = [c["name"] for c in self.calls]
+        w["callee"] = [c["name"] for c in getattr(self, "calls", [])]
+        if getattr(self, "finished", False):
+            try:
+                self.observables(m, w)
+            except Exception as ex:      # the replay data is best effort; the verdict does not depend on it
+                w["observed_error"] = "%s: %s" % (type(ex).__name__, ex)
         return w
+
+    def observables(self, m, w):
+        """concrete observables of this path under model m, and the callee's replies (for native replay)"""
+        gx = self.gx
+        if len(self.calls) != 1:
+            return
+        rec = self.calls[0]
+        low = {k.lower(): a for k, a in self.act.items()}
+        args, lens = [], {}
+        for o in rec["argobs"]:
+            if o is None:
+                args.append(None)
+            elif o[0] == "val":
+                args.append(["val", lc.mval(m, o[1]), o[2]])
+            elif o[0] == "buf":
+                key = o[1]
+                a = low.get(key) if key != "@result" else self.result
+                if key == "@result" and rec.get("res_as_arg"):
+                    a = low.get(rec["res_as_arg"])
+                    key = rec["res_as_arg"]
+                n = lc.mval(m, a.n) if a is not None and getattr(a, "n", None) is not None else 0
+                lens[key] = n
+                if o[2] is not None and o[4] in ("in", "inout"):
+                    args.append(["buf", lc.bytes_of(m, o[2], n)])
+                else:
+                    args.append(["buf", None])
+            elif o[0] == "cstr":
+                size = lc.mval(m, o[3])
+                off = lc.mval(m, o[2])
+                bs = lc.bytes_of(m, o[1], max(0, min(size - off, self.cap + 2)), off)
+                if 0 in bs:
+                    bs = bs[:bs.index(0)]
+                args.append(["cstr", bs])
+            elif o[0] == "ref":
+                args.append(["ref", lc.mval(m, o[1]) if o[3] in ("in", "inout") else None, o[2]])
+        replies = {}
+        for key, new in rec["havoc"].items():
+            a = low.get(key) if key != "@result" else self.result
+            if a is None:
+                continue
+            if a.kind == "char":
+                replies[key] = lc.bytes_of(m, new, lc.mval(m, a.n))
+            elif a.kind == "ref":
+                replies[key] = lc.mval(m, new)
+        if "ret" in rec:
+            replies["ret"] = lc.mval(m, rec["ret"])
+        ctx = rec.get("context")
+        if ctx is not None and "n" not in ctx:
+            L = lc.mval(m, ctx["elem_len"])
+            replies["context"] = {"elem_len": L, "text": [65 + (i % 26) for i in range(L)]}
+            if self.helper_calls:
+                replies["helper"] = {"text": lc.bytes_of(m, self.helper_calls[0]["text"], L)}
+        final = {}
+        for k, a in self.act.items():
+            if a.kind == "char":
+                gx.m.flush(a.obj)
+                n = lc.mval(m, a.n)
+                final[k.lower()] = {"len": n, "text": lc.bytes_of(m, a.obj.arr, n)}
+            elif a.kind == "ref":
+                final[k.lower()] = [lc.mval(m, gx.m.load_int(Ptr(a.obj, 0), a.gtype.bits)), a.gtype.bits]
+        r = self.result
+        if r is not None and r.kind == "char":
+            gx.m.flush(r.obj)
+            n = lc.mval(m, r.n)
+            final["@result"] = {"len": n, "text": lc.bytes_of(m, r.obj.arr, n)}
+        elif r is not None and r.kind == "alloc_char":
+            p = gx.m.load_ptr(Ptr(r.ptr_obj, 0))
+            if isinstance(p, Ptr) and p.obj is not None and r.len_obj is not None:
+                n = lc.mval(m, gx.m.load_int(Ptr(r.len_obj, 0), 64))
+                gx.m.flush(p.obj)
+                final["@result"] = {"len": n, "text": lc.bytes_of(m, p.obj.arr, n)}
+        elif self.ret is not None and not isinstance(self.ret, (tuple, Ptr)):
+            final["@result"] = [lc.mval(m, self.ret), self.ret.size()]
+        w["observed"] = {"callee": [{"name": rec["name"], "args": args, "lens": lens, "res_as_arg": rec.get("res_as_arg")}], "final": final}
+        w["replies"] = replies
 
     def judge(self, e, kind, value):
         cls = "fortran/%s" % self.fname
@@ -751,6 +850,7 @@ class FortranHarness(object):
             return {"cls": cls, "violation": self.witness(e.model(), "unexpected %s: %s" % (type(value).__name__, str(value)[:200])),
                     "vkey": "%s:exc" % self.fname}
         gx = value
+        self.finished = True
         checks = list(self.fails)
         if len(self.calls) != 1:
             checks.append(("the C function is called %d times, expected exactly once" % len(self.calls), True))
@@ -907,11 +1007,61 @@ class FortranHarness(object):
                         "counters": {"assertions": nq}}
         if self.twin:
             return {"cls": cls, "violation": self.witness(e.model(), "reachability twin"), "vkey": "twin"}
-        return {"cls": cls, "sample": self.witness(e.model(), None), "counters": {"assertions": nq}}
+        # the sample that is replayed natively should exercise something: prefer long, blank-containing texts
+        pref = []
+        for k, a in self.act.items():
+            if a.kind == "char":
+                pref.append(z3.And(a.n == self.cap, z3.Select(a.arr0, z3.BitVecVal(0, 64)) == 65,
+                                   z3.Select(a.arr0, z3.BitVecVal(1, 64)) == 32, z3.Select(a.arr0, z3.BitVecVal(self.cap - 1, 64)) == 32))
+            elif a.kind in ("value", "ref") and a.gtype.name != "logical" and a.gtype.kind == "int":
+                pref.append(a.v0 == 7)
+        m = None
+        for cond in (z3.And(pref) if pref else None,) + tuple(pref):
+            if cond is not None and e.check(cond) == "sat":
+                m = e.model(cond)
+                break
+        return {"cls": cls, "sample": self.witness(m or e.model(), None), "counters": {"assertions": nq}}
 
 
 def make(**kw):
     return FortranHarness(**kw)
+
+
+def replay(w):
+    """-> ('native', text) when the native build reproduces the symbolic run's observables,
+          ('symbolic', text) when the shape is outside the native driver and re-execution shows it again,
+          ('mismatch', text) when the native build behaves differently (encoding error), (None, None) otherwise"""
+    from harness import c01_native
+    h = FortranHarness(w["build"], w["function"], w.get("cap", 3))
+    try:
+        h.prepare()
+        r = c01_native.native_run(h, w)
+    except Exception as ex:
+        r = ("build", "%s: %s" % (type(ex).__name__, ex), None)
+    if r is None:
+        again = resolve_symbolic(w)
+        return ("symbolic", again) if again else (None, None)
+    if r[0] == "build":
+        return ("mismatch", r[1])
+    agree, why, got = r
+    if agree:
+        return ("native", "native run (gfortran + recording C stand-in) reproduces the symbolic run's observables")
+    return ("mismatch", why)
+
+
+def replay_sample(w):
+    from harness import c01_native
+    h = FortranHarness(w["build"], w["function"], w.get("cap", 3))
+    try:
+        h.prepare()
+        r = c01_native.native_run(h, w)
+    except Exception as ex:
+        return ("mismatch", "%s: %s" % (type(ex).__name__, ex))
+    if r is None:
+        return (None, None)
+    if r[0] == "build":
+        return ("mismatch", r[1])
+    return ("native", "") if r[0] else ("mismatch", r[1])
 
 
 def resolve_symbolic(w):
@@ -972,8 +1122,11 @@ def main():
         if key in seen:
             continue
         seen.add(key)
-        again = resolve_symbolic(v)
-        if again is None:
+        how, text = replay(v)
+        if how == "mismatch":
+            rep.inconc("counterexample is not reproduced by the native build (%s): %s" % (text, json.dumps({k: v[k] for k in ("function", "what", "inputs")})[:300]))
+            continue
+        if how is None:
             rep.inconc("counterexample did not reproduce on re-execution: %s" % json.dumps(v)[:300])
             continue
         confirmed += 1
@@ -982,10 +1135,26 @@ def main():
             rep.known_finding("%s (%s)" % (kf[0]["what_fails"], v.get("function")))
             continue
         path = checklib.write_replay(PID, "cex%03d" % i, v)
-        rep.violation(path, "%s | function=%s inputs=%s" % (v["what"], v["function"], json.dumps(v.get("inputs"))[:200]))
+        rep.violation(path, "%s | %s | function=%s inputs=%s" % (v["what"], "native replay" if how == "native" else "symbolic result (shape outside the native driver)",
+                                                                 v["function"], json.dumps(v.get("inputs"))[:200]))
     samples = []
     for cls, lst in sorted(total.samples.items())[:8]:
         samples.append({"function": lst[0]["function"], "inputs": lst[0]["inputs"], "callee": lst[0]["callee"]})
+    # engine validation: one clean path per procedure is replayed natively and must behave as the symbolic run did
+    validated, outside_native = 0, 0
+    from concurrent.futures import ThreadPoolExecutor
+    todo = [lst[0] for cls, lst in sorted(total.samples.items()) if lst]
+    for key in {tuple(t["build"]) for t in todo}:
+        fbuild(key)               # builds are cached per process: make them here, not concurrently in the threads
+        lc.get_build(key)
+    with ThreadPoolExecutor(max_workers=12) as tp:
+        for smp, (how, text) in zip(todo, tp.map(replay_sample, todo)):
+            if how == "native":
+                validated += 1
+            elif how == "mismatch":
+                rep.inconc("engine validation: the native build of %s behaves differently from the symbolic run: %s" % (smp["function"], text))
+            else:
+                outside_native += 1
     cov = {
         "programs": len(runs),
         "disagreements_checked": confirmed,
@@ -997,13 +1166,15 @@ def main():
         "paths": total.stats.paths,
         "assertions_discharged": total.counters.get("assertions", 0),
         "reachability_twin_ok": twin_ok,
+        "sample_paths_validated_natively": validated,
+        "sample_paths_outside_the_native_driver": outside_native,
         "runs": runs[:80],
     }
     assumptions = [
         "what is executed is gfortran 12's GIMPLE (SSA form, -O0) of the generated module procedures; libgfortran's string_trim / string_len_trim / concat_string and malloc/free/memmove are intrinsic models; allocation failure is out of scope",
         "the bind(C) callee is a stub with the contract of the generated C function (C10 / C02 / C06 decide that side): it may write the caller's character variable only inside the length it was given, stores arbitrary values through non-const references, returns an arbitrary value",
         "Fortran logicals supplied by the caller are 0 or 1",
-        "violations are confirmed by re-executing the harness (symbolic result); there is no native Fortran replay",
+        "counterexamples (and one clean path per procedure, as engine validation) are replayed natively: the generated module compiled by gfortran, linked with a recording C stand-in for the generated C function, driven by a Fortran program built from the witness; what the stand-in received and what the caller got back must equal the symbolic run's observables.  The native driver covers character and scalar dummies and scalar / character results; for arrays, objects and contexts of vectors the verdict is the symbolic result (the output says so)",
         "generic interface resolution, assumed-shape array descriptors and type-bound procedure dispatch are outside unless listed in functions_encoded",
     ]
     checklib.write_evidence(PID, tier, seed, "translation_validation", cov, assumptions, rep.wall(), len(rep.violations))
